@@ -24,9 +24,9 @@ theorem failed_download_keeps_previous (E : Env) (max : Nat) (a : Bool) (d : Opt
   · rw [hn] at hu; cases hu
   · rw [hr]; exact ⟨rfl, Or.inl rfl⟩
 
-example : Faulty { len := fun _ => 10, idx := fun _ => none, svcOk := fun _ => true, hashOk := fun _ => true }
+example : Faulty { len := fun _ => 10, idx := fun _ => none, svc := fun _ => some [], hashOk := fun _ => true }
     100 (.resp 404 7 false true) := by simp [Faulty]
-example : Faulty { len := fun _ => 101, idx := fun _ => none, svcOk := fun _ => true, hashOk := fun _ => true }
+example : Faulty { len := fun _ => 101, idx := fun _ => none, svc := fun _ => some [], hashOk := fun _ => true }
     100 (.resp 200 7 false true) := by simp [Faulty, limitHit]
 
 /-- **download_old_or_new.** After any refresh the cache file holds the previous document or a
@@ -190,9 +190,9 @@ theorem named_list_never_dropped (E : Env) (cfg : Cfg) (s : St) (R : Round) (d :
 whose only entry names key 7 with an invalid download URL. -/
 def cexEnv : Env :=
   { len := fun _ => 10, idx := fun c => if c = 1 then some [⟨7, true, false, 0⟩] else none,
-    svcOk := fun _ => true, hashOk := fun _ => true }
+    svc := fun _ => some [], hashOk := fun _ => true }
 def cexCfg (fixed : Bool) : Cfg :=
-  { idxMax := 100, rlMax := 100, svcMax := 100, svcEnabled := false, keepInvalid := fixed }
+  { idxMax := 100, rlMax := 100, svcMax := 100, svcEnabled := false, keepInvalid := fixed, svcNilCheck := true }
 def cexSt : St := { St.empty with rl := fun k => if k = 7 then some 5 else none }
 def cexRound : Round :=
   { acceptStale := false, idxFresh := false, idxResp := .resp 200 1 false true, fresh := fun _ => false,
@@ -253,8 +253,10 @@ theorem round_order_irrelevant (E : Env) (cfg : Cfg) (s : St) (R : Round) (r : E
       refresh E max a d f x := fun _ _ _ _ _ => rfl
   have hN : ∀ es, newLists { E with idx := fun c => (E.idx c).map (isort r) } cfg R s es =
       newLists E cfg R s es := fun _ => rfl
+  have hS : ∀ c, svcResult { E with idx := fun c => (E.idx c).map (isort r) } cfg c =
+      svcResult E cfg c := fun _ => rfl
   unfold refreshStorage
-  simp only [hE]
+  simp only [hE, hS]
   cases h1 : (refresh E cfg.idxMax R.acceptStale s.idxDisk R.idxFresh R.idxResp).1 with
   | none => rfl
   | some d =>
@@ -288,6 +290,239 @@ theorem early_exit_drops_list_counterexample :
     keepUntilInvalidKey cexSt.rl (fun _ => none) [⟨7, true, false, 0⟩, ⟨0, false, true, 3⟩] 7 = some 5 ∧
     [⟨0, false, true, 3⟩, ⟨7, true, false, 0⟩].foldl (keepPrev cexSt.rl) (fun _ => none) 7 = some 5 := by
   decide
+
+
+/-! ## Blocked services: the service index is a list too -/
+
+/-- What `Default.refresh` does with the blocked services, by cases on the two downloads. -/
+theorem storage_svc_cases (E : Env) (cfg : Cfg) (s : St) (R : Round) :
+    ((refreshStorage E cfg s R).1.svc = s.svc ∧ (refreshStorage E cfg s R).1.svcDisk = s.svcDisk ∧
+      (cfg.svcEnabled = false ∨ ∀ d, (refresh E cfg.idxMax R.acceptStale s.idxDisk R.idxFresh R.idxResp).1 = some d →
+        E.idx d = none)) ∨
+    (cfg.svcEnabled = true ∧
+      (refreshStorage E cfg s R).1.svcDisk = (refresh E cfg.svcMax R.acceptStale s.svcDisk R.svcFresh R.svcResp).2 ∧
+      (((refresh E cfg.svcMax R.acceptStale s.svcDisk R.svcFresh R.svcResp).1 = none ∧
+          (refreshStorage E cfg s R).1.svc = s.svc ∧ (refreshStorage E cfg s R).1.rl = s.rl ∧
+          (refreshStorage E cfg s R).2 = false) ∨
+       (∃ c, (refresh E cfg.svcMax R.acceptStale s.svcDisk R.svcFresh R.svcResp).1 = some c ∧
+          svcResult E cfg c ≠ .ok ∧
+          (refreshStorage E cfg s R).1.svc = s.svc ∧ (refreshStorage E cfg s R).1.rl = s.rl ∧
+          (refreshStorage E cfg s R).2 = false) ∨
+       (∃ c, (refresh E cfg.svcMax R.acceptStale s.svcDisk R.svcFresh R.svcResp).1 = some c ∧
+          svcResult E cfg c = .ok ∧
+          (refreshStorage E cfg s R).1.svc = some c ∧ (refreshStorage E cfg s R).2 = true))) := by
+  unfold refreshStorage
+  cases h1 : (refresh E cfg.idxMax R.acceptStale s.idxDisk R.idxFresh R.idxResp).1 with
+  | none => left; simp [h1]
+  | some d =>
+    cases h2 : E.idx d with
+    | none => left; simp [h1, h2]
+    | some es =>
+      cases h3 : cfg.svcEnabled with
+      | false => left; simp [h1, h2, h3]
+      | true =>
+        right
+        cases h4 : (refresh E cfg.svcMax R.acceptStale s.svcDisk R.svcFresh R.svcResp).1 with
+        | none => simp [h1, h2, h3, h4]
+        | some c =>
+          by_cases h5 : svcResult E cfg c = .ok
+          · simp [h1, h2, h3, h4, h5]
+          · simp [h1, h2, h3, h4, h5]
+
+/-- **svc_failed_keeps_previous.** When the blocked-service index has to be downloaded and the
+download fails in any way, the services in use and `services.json` stay exactly as they were; if
+the round got that far (services enabled, index obtained and decoded) it reports the error and the
+rule lists in use stay as well — their freshly downloaded files are kept for the next round. -/
+theorem svc_failed_keeps_previous (E : Env) (cfg : Cfg) (s : St) (R : Round)
+    (hc : fromFile E R.acceptStale R.svcFresh s.svcDisk = none) (hf : Faulty E cfg.svcMax R.svcResp) :
+    (refreshStorage E cfg s R).1.svc = s.svc ∧ (refreshStorage E cfg s R).1.svcDisk = s.svcDisk ∧
+    (cfg.svcEnabled = true → ∀ d es,
+      (refresh E cfg.idxMax R.acceptStale s.idxDisk R.idxFresh R.idxResp).1 = some d → E.idx d = some es →
+      (refreshStorage E cfg s R).2 = false ∧ (refreshStorage E cfg s R).1.rl = s.rl) := by
+  have hn := (fromURL_none_iff E cfg.svcMax R.svcResp).mpr hf
+  have hr : refresh E cfg.svcMax R.acceptStale s.svcDisk R.svcFresh R.svcResp = (none, s.svcDisk) := by
+    simp [refresh, hc, hn]
+  rcases storage_svc_cases E cfg s R with ⟨h1, h2, h3⟩ | ⟨he, hd, h⟩
+  · refine ⟨h1, h2, ?_⟩
+    intro hen d es hd hdoc
+    rcases h3 with h3 | h3
+    · rw [hen] at h3; cases h3
+    · rw [h3 d hd] at hdoc; cases hdoc
+  · rw [hr] at hd h
+    rcases h with ⟨_, h1, h2, h3⟩ | ⟨c, hc', _⟩ | ⟨c, hc', _⟩
+    · exact ⟨h1, hd, fun _ _ _ _ _ => ⟨h3, h2⟩⟩
+    · cases hc'
+    · cases hc'
+
+example : Faulty cexEnv 100 (.resp 200 7 true false) := by simp [Faulty]
+
+/-- **svc_invalid_entries_keep_previous** (the repaired behaviour).  A service index that was
+obtained completely but contains an element that does not convert — a `null`, an invalid id — is
+refused as a whole: the refresh returns an error (it does not panic), and the services and the rule
+lists in use stay as they were. -/
+theorem svc_invalid_entries_keep_previous (E : Env) (cfg : Cfg) (s : St) (R : Round)
+    (hfix : cfg.svcNilCheck = true) (c : Nat) (es : List SvcEntry)
+    (hsvc : (refresh E cfg.svcMax R.acceptStale s.svcDisk R.svcFresh R.svcResp).1 = some c)
+    (hdoc : E.svc c = some es) (hbad : ∃ e ∈ es, e ≠ SvcEntry.ok) :
+    refreshPanics E cfg s R = false ∧ (refreshStorage E cfg s R).1.svc = s.svc ∧
+    (cfg.svcEnabled = true → ∀ d ies,
+      (refresh E cfg.idxMax R.acceptStale s.idxDisk R.idxFresh R.idxResp).1 = some d → E.idx d = some ies →
+      (refreshStorage E cfg s R).2 = false ∧ (refreshStorage E cfg s R).1.rl = s.rl) := by
+  have hres : svcResult E cfg c = .err := by
+    obtain ⟨e, he, hne⟩ := hbad
+    have hall : es.all (· == SvcEntry.ok) = false := by
+      rw [Bool.eq_false_iff]
+      intro hall
+      rw [List.all_eq_true] at hall
+      have := hall e he
+      simp at this
+      exact hne this
+    simp [svcResult, hdoc, svcConvert, hfix, hall]
+  refine ⟨?_, ?_, ?_⟩
+  · unfold refreshPanics
+    cases h1 : (refresh E cfg.idxMax R.acceptStale s.idxDisk R.idxFresh R.idxResp).1 with
+    | none => simp [h1]
+    | some d =>
+      cases h2 : E.idx d with
+      | none => simp [h1, h2]
+      | some _ => simp [h1, h2, hsvc, hres]
+  · rcases storage_svc_cases E cfg s R with ⟨h1, _, _⟩ | ⟨_, _, h⟩
+    · exact h1
+    · rcases h with ⟨_, h1, _⟩ | ⟨c', _, _, h1, _⟩ | ⟨c', hc', hok, _⟩
+      · exact h1
+      · exact h1
+      · rw [hsvc] at hc'; cases hc'; rw [hres] at hok; cases hok
+  · intro hen d ies hd hdoc'
+    rcases storage_svc_cases E cfg s R with ⟨_, _, h3⟩ | ⟨_, _, h⟩
+    · rcases h3 with h3 | h3
+      · rw [hen] at h3; cases h3
+      · rw [h3 d hd] at hdoc'; cases hdoc'
+    · rcases h with ⟨hn, _⟩ | ⟨c', _, _, _, h2, h3⟩ | ⟨c', hc', hok, _⟩
+      · rw [hsvc] at hn; cases hn
+      · exact ⟨h3, h2⟩
+      · rw [hsvc] at hc'; cases hc'; rw [hres] at hok; cases hok
+
+/-- **refresh_never_panics** (the repaired behaviour): with the nil check no service index makes
+`Default.refresh` panic. -/
+theorem refresh_never_panics (E : Env) (cfg : Cfg) (s : St) (R : Round) (hfix : cfg.svcNilCheck = true) :
+    refreshPanics E cfg s R = false := by
+  have hc : ∀ c, svcResult E cfg c ≠ .panic := by
+    intro c
+    unfold svcResult
+    cases E.svc c with
+    | none => simp
+    | some es =>
+      simp only [svcConvert, hfix]
+      split
+      · rename_i h; simp at h
+      · split <;> simp
+  unfold refreshPanics
+  cases h1 : (refresh E cfg.idxMax R.acceptStale s.idxDisk R.idxFresh R.idxResp).1 with
+  | none => simp [h1]
+  | some d =>
+    cases h2 : E.idx d with
+    | none => simp [h1, h2]
+    | some _ =>
+      cases h3 : (refresh E cfg.svcMax R.acceptStale s.svcDisk R.svcFresh R.svcResp).1 with
+      | none => simp [h1, h2, h3]
+      | some c => simp [h1, h2, h3, hc c]
+
+/-- The witness of the second finding: a service index (content 2) `[svc, null]`. -/
+def nullEnv : Env :=
+  { len := fun _ => 10, idx := fun c => if c = 1 then some [] else none,
+    svc := fun c => if c = 2 then some [.ok, .null] else none, hashOk := fun _ => true }
+def nullCfg (fixed : Bool) : Cfg :=
+  { idxMax := 100, rlMax := 100, svcMax := 100, svcEnabled := true, keepInvalid := true, svcNilCheck := fixed }
+def nullRound (initial : Bool) : Round :=
+  { acceptStale := initial, idxFresh := false, idxResp := .resp 200 1 false true, fresh := fun _ => false,
+    resp := fun _ => .getErr, svcFresh := false, svcResp := .resp 200 2 false true }
+
+/-- **null_service_entry_panics_counterexample.** On the tree as found (`svcNilCheck = false`)
+`refresh_never_panics` is false: a `null` element in the blocked-service index is dereferenced.
+The document has been stored before it is decoded, so the process that is started next
+(`RefreshInitial`, whatever the server offers then) reads it from `services.json` and panics
+again.  Reproduced on the real code by the harness (signature
+`panic-in-refresh:null-service-entry`), repaired by the second `fix:` commit. -/
+theorem null_service_entry_panics_counterexample :
+    ¬ (∀ (E : Env) (cfg : Cfg) (s : St) (R : Round), cfg.svcNilCheck = false →
+        refreshPanics E cfg s R = false) ∧
+    (let s1 := (refreshStorage nullEnv (nullCfg false) St.empty (nullRound false)).1
+     s1.svcDisk = some 2 ∧
+     refreshPanics nullEnv (nullCfg false) (restart s1)
+       { nullRound true with svcResp := .getErr } = true) := by
+  constructor
+  · intro h
+    have := h nullEnv (nullCfg false) St.empty (nullRound false) rfl
+    revert this
+    decide
+  · decide
+
+/-- Non-vacuity of the hypotheses of `svc_invalid_entries_keep_previous`, `svc_failed_keeps_previous`
+and `valid_service_index_applied`. -/
+example : (refresh nullEnv (nullCfg true).svcMax false St.empty.svcDisk false (nullRound false).svcResp).1 =
+    some 2 := by decide
+example : nullEnv.svc 2 = some [.ok, .null] ∧ ∃ e ∈ [SvcEntry.ok, SvcEntry.null], e ≠ SvcEntry.ok :=
+  ⟨rfl, .null, by simp, by decide⟩
+example : fromFile nullEnv false false St.empty.svcDisk = none := by decide
+example : svcResult { nullEnv with svc := fun c => if c = 2 then some [.ok, .ok] else none } (nullCfg true) 2 =
+    .ok := by decide
+example : (refreshStorage { nullEnv with svc := fun c => if c = 2 then some [.ok, .ok] else none }
+    (nullCfg true) St.empty (nullRound false)).1.svc = some 2 := by decide
+example : refreshPanics nullEnv (nullCfg true) St.empty (nullRound false) = false := by decide
+example : (refreshStorage nullEnv (nullCfg true) St.empty (nullRound false)).2 = false := by decide
+
+/-- **svc_old_or_new.** After any round the blocked services in use are the previous ones, or come
+from a document — the stored one or one the server offered completely in this round — that decoded
+and converted as a whole; `services.json` and `filters.json` hold their previous or a completely
+offered document. -/
+theorem svc_old_or_new (E : Env) (cfg : Cfg) (s : St) (R : Round) :
+    ((refreshStorage E cfg s R).1.svc = s.svc ∨
+      ∃ c, (refreshStorage E cfg s R).1.svc = some c ∧ svcResult E cfg c = .ok ∧
+        (s.svcDisk = some c ∨ Offers E cfg.svcMax R.svcResp c)) ∧
+    ((refreshStorage E cfg s R).1.svcDisk = s.svcDisk ∨
+      ∃ c, (refreshStorage E cfg s R).1.svcDisk = some c ∧ Offers E cfg.svcMax R.svcResp c) ∧
+    ((refreshStorage E cfg s R).1.idxDisk = s.idxDisk ∨
+      ∃ c, (refreshStorage E cfg s R).1.idxDisk = some c ∧ Offers E cfg.idxMax R.idxResp c) := by
+  have hidx : (refreshStorage E cfg s R).1.idxDisk =
+      (refresh E cfg.idxMax R.acceptStale s.idxDisk R.idxFresh R.idxResp).2 := by
+    unfold refreshStorage
+    cases h1 : (refresh E cfg.idxMax R.acceptStale s.idxDisk R.idxFresh R.idxResp).1 with
+    | none => simp [h1]
+    | some d =>
+      cases h2 : E.idx d with
+      | none => simp [h1, h2]
+      | some es =>
+        cases h3 : cfg.svcEnabled with
+        | false => simp [h1, h2, h3]
+        | true =>
+          cases h4 : (refresh E cfg.svcMax R.acceptStale s.svcDisk R.svcFresh R.svcResp).1 with
+          | none => simp [h1, h2, h3, h4]
+          | some c => by_cases h5 : svcResult E cfg c = .ok <;> simp [h1, h2, h3, h4, h5]
+  have hdl := download_old_or_new E cfg.svcMax R.acceptStale s.svcDisk R.svcFresh R.svcResp
+  refine ⟨?_, ?_, ?_⟩
+  · rcases storage_svc_cases E cfg s R with ⟨h1, _, _⟩ | ⟨_, _, h⟩
+    · exact Or.inl h1
+    · rcases h with ⟨_, h1, _⟩ | ⟨c, _, _, h1, _⟩ | ⟨c, hc, hok, h1, _⟩
+      · exact Or.inl h1
+      · exact Or.inl h1
+      · exact Or.inr ⟨c, h1, hok, hdl.2 c hc⟩
+  · rcases storage_svc_cases E cfg s R with ⟨_, h2, _⟩ | ⟨_, hd, _⟩
+    · exact Or.inl h2
+    · rw [hd]; exact hdl.1
+  · rw [hidx]
+    exact (download_old_or_new E cfg.idxMax R.acceptStale s.idxDisk R.idxFresh R.idxResp).1
+
+/-- **valid_service_index_applied.** A round that obtained its index and a service index that
+decodes and converts as a whole serves exactly that service index and returns no error. -/
+theorem valid_service_index_applied (E : Env) (cfg : Cfg) (s : St) (R : Round) (d c : Nat)
+    (es : List Entry) (hen : cfg.svcEnabled = true)
+    (hidx : (refresh E cfg.idxMax R.acceptStale s.idxDisk R.idxFresh R.idxResp).1 = some d)
+    (hdoc : E.idx d = some es)
+    (hsvc : (refresh E cfg.svcMax R.acceptStale s.svcDisk R.svcFresh R.svcResp).1 = some c)
+    (hok : svcResult E cfg c = .ok) :
+    (refreshStorage E cfg s R).1.svc = some c ∧ (refreshStorage E cfg s R).2 = true := by
+  unfold refreshStorage
+  simp [hidx, hdoc, hen, hsvc, hok]
 
 /-- **hash_failed_keeps_previous.** A hash list whose download fails (cache not usable) keeps what
 it serves and its cache file, and `refresh` reports the error. -/
@@ -441,6 +676,251 @@ theorem never_serves_incomplete (E : Env) (cfg : Cfg) (hfix : cfg.keepInvalid = 
     · exact Or.inr ⟨R, by simp, u, h1⟩
     · exact Or.inr ⟨R', by simp [hR'], u, h1⟩
 
+
+/-! ## Every document of every kind, over every history -/
+
+/-- `c` is in use or lies in a cache file of the storage: a rule list, a rule-list file, the index
+file, the services, the service file. -/
+def Visible (s : St) (c : Nat) : Prop :=
+  (∃ k, s.rl k = some c ∨ s.rlDisk k = some c) ∨ s.idxDisk = some c ∨ s.svc = some c ∨
+    s.svcDisk = some c
+
+/-- Some server offered `c` completely in round `R`, within the size limit of its kind. -/
+def OfferedIn (E : Env) (cfg : Cfg) (R : Round) (c : Nat) : Prop :=
+  (∃ u, Offers E cfg.rlMax (R.resp u) c) ∨ Offers E cfg.idxMax R.idxResp c ∨
+    Offers E cfg.svcMax R.svcResp c
+
+theorem visible_step (E : Env) (cfg : Cfg) (hfix : cfg.keepInvalid = true) (s : St) (R : Round)
+    (c : Nat) (h : Visible (refreshStorage E cfg s R).1 c) : Visible s c ∨ OfferedIn E cfg R c := by
+  have hs := svc_old_or_new E cfg s R
+  rcases h with ⟨k, h⟩ | h | h | h
+  · have hr := every_list_old_or_new E cfg s R hfix k
+    rcases h with h | h
+    · rcases hr.1 with h1 | ⟨c', h1, h2⟩ | ⟨h1, _⟩
+      · exact Or.inl (Or.inl ⟨k, Or.inl (by rw [← h1]; exact h)⟩)
+      · rw [h1] at h; cases h
+        rcases h2 with h2 | h2
+        · exact Or.inl (Or.inl ⟨k, Or.inr h2⟩)
+        · exact Or.inr (Or.inl h2)
+      · rw [h1] at h; cases h
+    · rcases hr.2 with h1 | ⟨c', u, h1, h2⟩
+      · exact Or.inl (Or.inl ⟨k, Or.inr (by rw [← h1]; exact h)⟩)
+      · rw [h1] at h; cases h
+        exact Or.inr (Or.inl ⟨u, h2⟩)
+  · rcases hs.2.2 with h1 | ⟨c', h1, h2⟩
+    · exact Or.inl (Or.inr (Or.inl (by rw [← h1]; exact h)))
+    · rw [h1] at h; cases h
+      exact Or.inr (Or.inr (Or.inl h2))
+  · rcases hs.1 with h1 | ⟨c', h1, _, h2⟩
+    · exact Or.inl (Or.inr (Or.inr (Or.inl (by rw [← h1]; exact h))))
+    · rw [h1] at h; cases h
+      rcases h2 with h2 | h2
+      · exact Or.inl (Or.inr (Or.inr (Or.inr h2)))
+      · exact Or.inr (Or.inr (Or.inr h2))
+  · rcases hs.2.1 with h1 | ⟨c', h1, h2⟩
+    · exact Or.inl (Or.inr (Or.inr (Or.inr (by rw [← h1]; exact h))))
+    · rw [h1] at h; cases h
+      exact Or.inr (Or.inr (Or.inr h2))
+
+/-- **never_visible_incomplete.** The independent specification of the whole property for the
+storage: over every history of rounds — any mixture of healthy and faulty downloads of the index,
+of every rule list and of the service index, any index documents, any restarts in between
+(`acceptStale` is a field of each round) — every document that is served by a rule list or by the
+blocked services, or that lies in `filters.json`, `services.json` or a rule-list file, was there
+initially or was offered completely (status 200, framing intact, non-empty, within the size limit
+of its kind) by a server in some round of the history.  Nothing truncated, empty, oversized, or
+sent with an error status ever becomes visible anywhere. -/
+theorem never_visible_incomplete (E : Env) (cfg : Cfg) (hfix : cfg.keepInvalid = true)
+    (rs : List Round) (init : Nat → Prop) (s : St) (h0 : ∀ c, Visible s c → init c) (c : Nat)
+    (h : Visible (run E cfg s rs) c) : init c ∨ ∃ R ∈ rs, OfferedIn E cfg R c := by
+  induction rs generalizing s init with
+  | nil => exact Or.inl (h0 c h)
+  | cons R rs ih =>
+    have hstep : ∀ c, Visible (refreshStorage E cfg s R).1 c → (init c ∨ OfferedIn E cfg R c) := by
+      intro c hc
+      rcases visible_step E cfg hfix s R c hc with h1 | h1
+      · exact Or.inl (h0 c h1)
+      · exact Or.inr h1
+    have := ih (fun c => init c ∨ OfferedIn E cfg R c) (refreshStorage E cfg s R).1 hstep
+      (by simpa [run] using h)
+    rcases this with (h1 | h1) | ⟨R', hR', h1⟩
+    · exact Or.inl h1
+    · exact Or.inr ⟨R, by simp, h1⟩
+    · exact Or.inr ⟨R', by simp [hR'], h1⟩
+
+/-- The same with a process restart (memory lost, files kept) between any two rounds. -/
+theorem restart_visible (s : St) (c : Nat) (h : Visible (restart s) c) : Visible s c := by
+  rcases h with ⟨k, h | h⟩ | h | h | h
+  · simp [restart] at h
+  · exact Or.inl ⟨k, Or.inr h⟩
+  · exact Or.inr (Or.inl h)
+  · simp [restart] at h
+  · exact Or.inr (Or.inr (Or.inr h))
+
+example : Visible (run cexEnv (cexCfg true) cexSt [cexRound]) 5 := by
+  refine Or.inl ⟨7, Or.inl ?_⟩
+  decide
+
+/-- A history of hash-filter refreshes: (`acceptStale`, cache file fresh, server behaviour). -/
+def runHash (E : Env) (max : Nat) (s : HSt) (rs : List (Bool × Bool × Resp)) : HSt :=
+  rs.foldl (fun s x => (refreshHash E max x.1 s x.2.1 x.2.2).1) s
+
+/-- **hash_never_incomplete.** Over every history of refreshes of a hash-prefix filter, what it
+serves and what its cache file holds was there initially or was offered completely in some
+round. -/
+theorem hash_never_incomplete (E : Env) (max : Nat) (rs : List (Bool × Bool × Resp))
+    (init : Nat → Prop) (s : HSt) (h0 : ∀ c, (s.mem = some c ∨ s.disk = some c) → init c) (c : Nat)
+    (h : (runHash E max s rs).mem = some c ∨ (runHash E max s rs).disk = some c) :
+    init c ∨ ∃ x ∈ rs, Offers E max x.2.2 c := by
+  induction rs generalizing s init with
+  | nil => exact Or.inl (h0 c h)
+  | cons x rs ih =>
+    have hstep : ∀ c, ((refreshHash E max x.1 s x.2.1 x.2.2).1.mem = some c ∨
+        (refreshHash E max x.1 s x.2.1 x.2.2).1.disk = some c) →
+        (init c ∨ Offers E max x.2.2 c) := by
+      intro c hc
+      have hr := hash_old_or_new E max x.1 s x.2.1 x.2.2
+      rcases hc with hc | hc
+      · rcases hr.1 with h1 | ⟨c', h1, _, h2⟩
+        · exact Or.inl (h0 c (Or.inl (by rw [← h1]; exact hc)))
+        · rw [h1] at hc; cases hc
+          rcases h2 with h2 | h2
+          · exact Or.inl (h0 c (Or.inr h2))
+          · exact Or.inr h2
+      · rcases hr.2 with h1 | ⟨c', h1, h2⟩
+        · exact Or.inl (h0 c (Or.inr (by rw [← h1]; exact hc)))
+        · rw [h1] at hc; cases hc
+          exact Or.inr h2
+    have := ih (fun c => init c ∨ Offers E max x.2.2 c) (refreshHash E max x.1 s x.2.1 x.2.2).1 hstep
+      (by simpa [runHash] using h)
+    rcases this with (h1 | h1) | ⟨x', hx', h1⟩
+    · exact Or.inl h1
+    · exact Or.inr ⟨x, by simp, h1⟩
+    · exact Or.inr ⟨x', by simp [hx'], h1⟩
+
+/-! ## Kill points, tied to the verdict of the download -/
+
+/-- **kill_point_file.** `disk_always_complete` with the branch taken by the deferred clean-up
+tied to what `refreshFromURL` decided: for any response `r`, any way the received bytes were split
+into writes, and any kill point `n`, the cache path holds what it held before, or the bytes of a
+document `c` that the server OFFERED completely (so never after a cut, oversized, empty or non-200
+transfer).  `bytes` gives the bytes of a content; `hch` says that when the download succeeded the
+writes were the bytes of the document. -/
+theorem kill_point_file {α : Type} (E : Env) (max : Nat) (r : Resp) (bytes : Nat → List α)
+    (fs : Fs α) (chunks : List (List α))
+    (hch : ∀ c, fromURL E max r = some c → chunks.flatten = bytes c) (n : Nat) :
+    (fsExec fs ((fsTrace chunks (fromURL E max r).isSome).take n)).path = fs.path ∨
+    ∃ c, Offers E max r c ∧
+      (fsExec fs ((fsTrace chunks (fromURL E max r).isSome).take n)).path = some (bytes c) := by
+  rcases disk_always_complete fs chunks (fromURL E max r).isSome n with h | ⟨hok, h⟩
+  · exact Or.inl h
+  · cases hu : fromURL E max r with
+    | none => rw [hu] at hok; cases hok
+    | some c =>
+      right
+      refine ⟨c, fromURL_some E max r c hu, ?_⟩
+      rw [hu] at h
+      rw [h, hch c hu]
+
+example : (fromURL cexEnv 100 (.resp 200 7 true false)).isSome = false := by decide
+
+/-- **kill_between_lists.** A process killed after `Default.refresh` has handled any number `m` of
+the index entries (in whatever order `es` lists them — in particular the sorted one): every
+rule-list cache file holds its previous document or one that a server offered completely in this
+round.  Together with `kill_point_file` for the download in flight this covers every kill point
+of a round. -/
+theorem kill_between_lists (E : Env) (cfg : Cfg) (R : Round) (s : St) (es : List Entry) (m k : Nat) :
+    ((toInternal (es.take m)).foldl (addRuleList E cfg R s.rl) ⟨fun _ => none, s.rlDisk⟩).disk k =
+        s.rlDisk k ∨
+    ∃ c u, ((toInternal (es.take m)).foldl (addRuleList E cfg R s.rl) ⟨fun _ => none, s.rlDisk⟩).disk k =
+        some c ∧ Offers E cfg.rlMax (R.resp u) c := by
+  rcases (addLoop_ok E cfg R s (es.take m) k).2 with h | ⟨c, h, e, _, _, hu⟩
+  · exact Or.inl h
+  · exact Or.inr ⟨c, e.url, h, fromURL_some E cfg.rlMax _ c hu⟩
+
+
+/-! ## A round interrupted by the cancellation of its context -/
+
+theorem take_filter_prefix {α : Type} (p : α → Bool) (l : List α) (m : Nat) :
+    ∃ m', (l.filter p).take m = (l.take m').filter p := by
+  induction l generalizing m with
+  | nil => exact ⟨0, by simp⟩
+  | cons x xs ih =>
+    by_cases hp : p x = true
+    · cases m with
+      | zero => exact ⟨0, by simp⟩
+      | succ n =>
+        obtain ⟨n', hn⟩ := ih n
+        exact ⟨n' + 1, by simp [List.filter_cons, hp, hn]⟩
+    · obtain ⟨n', hn⟩ := ih m
+      exact ⟨n' + 1, by simp [List.filter_cons, hp, hn]⟩
+
+theorem addUntilCancel_prefix (E : Env) (cfg : Cfg) (R : Round) (old : Nat → Option Nat) (u : Nat)
+    (l : List Entry) (a : Acc) :
+    ∃ m, (addUntilCancel E cfg R old u a l).1 = (l.take m).foldl (addRuleList E cfg R old) a := by
+  induction l generalizing a with
+  | nil => exact ⟨0, by simp [addUntilCancel]⟩
+  | cons e es ih =>
+    unfold addUntilCancel
+    split
+    · rename_i hdup
+      obtain ⟨m, hm⟩ := ih a
+      refine ⟨m + 1, ?_⟩
+      rw [hm]
+      simp [List.take_succ_cons, List.foldl_cons, addRuleList, hdup]
+    · split
+      · exact ⟨0, by simp⟩
+      · obtain ⟨m, hm⟩ := ih (addRuleList E cfg R old a e)
+        exact ⟨m + 1, by rw [hm]; simp [List.take_succ_cons, List.foldl_cons]⟩
+
+/-- **cancelled_round_safe.** A round whose context is cancelled while a rule list is being
+downloaded (the deadline of the refresh worker expires, the service shuts down) either was not
+affected at all, or: it reports an error, every rule list and the blocked services stay in use
+exactly as they were, `services.json` is untouched, and every rule-list file holds its previous
+document or one that a server offered completely before the interruption. -/
+theorem cancelled_round_safe (E : Env) (cfg : Cfg) (s : St) (R : Round) (u : Nat) :
+    refreshStorageCancel E cfg s R u = refreshStorage E cfg s R ∨
+    ((refreshStorageCancel E cfg s R u).2 = false ∧ (refreshStorageCancel E cfg s R u).1.rl = s.rl ∧
+      (refreshStorageCancel E cfg s R u).1.svc = s.svc ∧
+      (refreshStorageCancel E cfg s R u).1.svcDisk = s.svcDisk ∧
+      ∀ k, (refreshStorageCancel E cfg s R u).1.rlDisk k = s.rlDisk k ∨
+        ∃ c u', (refreshStorageCancel E cfg s R u).1.rlDisk k = some c ∧
+          Offers E cfg.rlMax (R.resp u') c) := by
+  unfold refreshStorageCancel
+  cases h1 : (refresh E cfg.idxMax R.acceptStale s.idxDisk R.idxFresh R.idxResp).1 with
+  | none => right; simp [h1]
+  | some d =>
+    cases h2 : E.idx d with
+    | none => right; simp [h1, h2]
+    | some es =>
+      cases h3 : (addUntilCancel E cfg R s.rl u ⟨fun _ => none, s.rlDisk⟩ (toInternal es)).2 with
+      | false => left; simp [h1, h2, h3]
+      | true =>
+        right
+        simp only [h1, h2, h3, if_true]
+        refine ⟨trivial, trivial, trivial, trivial, ?_⟩
+        intro k
+        obtain ⟨m, hm⟩ := addUntilCancel_prefix E cfg R s.rl u (toInternal es) ⟨fun _ => none, s.rlDisk⟩
+        obtain ⟨m', hm'⟩ := take_filter_prefix (fun e : Entry => e.keyOk && e.urlOk) es m
+        simp only [hm]
+        have : (toInternal es).take m = toInternal (es.take m') := hm'
+        rw [this]
+        exact kill_between_lists E cfg R s es m' k
+
+/-- Non-vacuity: a round that is really cut short.  Lists 4 and 7 are named (in key order), the
+request for the URL of list 7 cancels the context: list 4 has been stored, nothing is swapped. -/
+example : (refreshStorageCancel
+    { cexEnv with idx := fun c => if c = 1 then some [⟨4, true, true, 4⟩, ⟨7, true, true, 5⟩] else none }
+    (cexCfg true) cexSt
+    { cexRound with resp := fun u => if u = 4 then .resp 200 9 false true else .getErr } 5).2 = false := by
+  decide
+example : (refreshStorageCancel
+    { cexEnv with idx := fun c => if c = 1 then some [⟨4, true, true, 4⟩, ⟨7, true, true, 5⟩] else none }
+    (cexCfg true) cexSt
+    { cexRound with resp := fun u => if u = 4 then .resp 200 9 false true else .getErr } 5).1.rlDisk 4 =
+      some 9 := by
+  decide
+
 end Agd.Refresh
 
 #print axioms Agd.Refresh.failed_download_keeps_previous
@@ -454,6 +934,13 @@ end Agd.Refresh
 #print axioms Agd.Refresh.index_order_irrelevant
 #print axioms Agd.Refresh.round_order_irrelevant
 #print axioms Agd.Refresh.early_exit_drops_list_counterexample
+#print axioms Agd.Refresh.storage_svc_cases
+#print axioms Agd.Refresh.svc_failed_keeps_previous
+#print axioms Agd.Refresh.svc_invalid_entries_keep_previous
+#print axioms Agd.Refresh.refresh_never_panics
+#print axioms Agd.Refresh.null_service_entry_panics_counterexample
+#print axioms Agd.Refresh.svc_old_or_new
+#print axioms Agd.Refresh.valid_service_index_applied
 #print axioms Agd.Refresh.hash_failed_keeps_previous
 #print axioms Agd.Refresh.hash_old_or_new
 #print axioms Agd.Refresh.disk_always_complete
@@ -461,3 +948,12 @@ end Agd.Refresh
 #print axioms Agd.Refresh.valid_entries_applied
 #print axioms Agd.Refresh.valid_entry_downloaded
 #print axioms Agd.Refresh.never_serves_incomplete
+#print axioms Agd.Refresh.visible_step
+#print axioms Agd.Refresh.never_visible_incomplete
+#print axioms Agd.Refresh.restart_visible
+#print axioms Agd.Refresh.hash_never_incomplete
+#print axioms Agd.Refresh.kill_point_file
+#print axioms Agd.Refresh.kill_between_lists
+#print axioms Agd.Refresh.take_filter_prefix
+#print axioms Agd.Refresh.addUntilCancel_prefix
+#print axioms Agd.Refresh.cancelled_round_safe
